@@ -609,7 +609,8 @@ Proof.
   intros c key fbfee fbgas. unfold proposer_config_v1, resolve_v1, select1.
   destruct (aget (c1_props c) key) as [[q|]|].
   - destruct (q_builder q) as [b|]; reflexivity.
-  - reflexivity.
+  - destruct (c1_default c) as [q|]; cbn [or_else]; [|reflexivity].
+    destruct (q_builder q) as [b|]; reflexivity.
   - destruct (c1_default c) as [q|]; cbn [or_else]; [|reflexivity].
     destruct (q_builder q) as [b|]; reflexivity.
 Qed.
@@ -626,11 +627,11 @@ Lemma v1_lookup_cases : forall c key fbfee fbgas,
                        rc_grace := b_grace b; rc_min := dec_zero |} in
   match aget (c1_props c) key with
   | Some (Some q) => of_entry q
-  | Some None => out = {| pc_fee := fbfee; pc_relays := [] |}
-  | None => match c1_default c with
-            | Some q => of_entry q
-            | None => out = {| pc_fee := fbfee; pc_relays := [] |}
-            end
+  | Some None | None =>
+      match c1_default c with
+      | Some q => of_entry q
+      | None => out = {| pc_fee := fbfee; pc_relays := [] |}
+      end
   end.
 Proof.
   intros c key fbfee fbgas out of_entry.
@@ -648,7 +649,9 @@ Proof.
   rewrite N.eqb_refl in Hentry.
   destruct (aget (c1_props c) key) as [[q|]|].
   - apply Hentry. reflexivity.
-  - reflexivity.
+  - destruct (c1_default c) as [q|]; cbn [or_else].
+    + apply Hentry. reflexivity.
+    + reflexivity.
   - destruct (c1_default c) as [q|]; cbn [or_else].
     + apply Hentry. reflexivity.
     + reflexivity.
@@ -672,10 +675,12 @@ Lemma v1_fieldwise_partial : forall c key fbfee fbgas,
 Proof.
   intros c key fbfee fbgas H. unfold v1_entry_complete in H.
   unfold proposer_config_v1, resolve_v1_doc.
-  destruct (aget (c1_props c) key) as [[q|]|]; [| discriminate |].
+  destruct (aget (c1_props c) key) as [[q|]|].
   - apply andb_true_iff in H as [Hg Hb]. apply negb_true_iff in Hg.
     destruct (q_builder q) as [b|] eqn:Eb; [|discriminate].
     unfold gas_of1. cbn [option_map obind first_some or_opt]. rewrite Eb, Hg. reflexivity.
+  - destruct (c1_default c) as [d|]; cbn [option_map obind first_some or_opt]; [|reflexivity].
+    unfold gas_of1. destruct (q_gas d =? 0); destruct (q_builder d) as [b|]; reflexivity.
   - destruct (c1_default c) as [d|]; cbn [option_map obind first_some or_opt]; [|reflexivity].
     unfold gas_of1. destruct (q_gas d =? 0); destruct (q_builder d) as [b|]; reflexivity.
 Qed.
